@@ -118,6 +118,72 @@ def run(prog, rep, tier='quick', config='default'):
         rep.violation('R19b', 'matched-trades-leave-the-shared-pool', fn=m.name, where=removes[0].where() if removes else '',
                       detail='matched trades are not consumed from the pool used for later candidates / manual trades (removal: %s, candidates from pool: %s, '
                              'left-overs from pool: %s): a trade could be counted twice' % (bool(removes), bool(cand_iters), out_ok))
+    # ------------------------------------------------------------------ R19e: a benefit with sold shares is always matched
+    finder_calls = [c for c in m.calls if prog.resolve(c.callee, m.crate) is not None and
+                    re.search(r'Result<std::vec::Vec<&.*BrokerTx', m.ty.get(c.dst['l'], ''))]
+    bl = [(nc, h, b) for (nc, h, b) in m.iterator_loops() if 'BenefitEntry' in m.ty.get(nc.arg_local(0), '')]
+    if not finder_calls or not bl:
+        rep.violation('R19e', 'anchor-lost:match-call', fn=m.name, detail='anchor lost: the call that searches the trade set of a benefit / the loop over benefits')
+    else:
+        nc, header, body = bl[0]
+        fc = finder_calls[0]
+        sw = m.blocks[nc.target]['term'] if nc.target in m.blocks else None
+        entry = ([tg for v, tg in sw['targets'] if v == 1] or [sw['otherwise']])[0] if sw and sw['t'] == 'switch' else None
+        allowed = set()
+        for i, b in m.blocks.items():
+            e = m.bool_switch_edges(i) if i in body else None
+            if e is None:
+                continue
+            d = mir.provenance(m, b['term']['discr'])
+            for x in d.calls:
+                if x.callee.endswith('Option::<T>::is_none') and len(d.calls) == 1:
+                    dd = m.single_def(x.arg_local(0)) if x.arg_local(0) is not None else None
+                    if dd and dd[2] == 'stmt' and 'pl' in dd[3]['r'] or (dd and dd[2] == 'stmt' and dd[3]['r'].get('ops') and is_place(dd[3]['r']['ops'][0])):
+                        pl = dd[3]['r'].get('pl') or dd[3]['r']['ops'][0]['pl']
+                        if mir.place_fields(pl)[-1:] and mir.place_fields(pl)[-1][1] == 'sell_to_cover_shares':
+                            allowed.add(e[0])
+        if entry is not None and m.reaches(entry, header, avoid={fc.bb} | allowed):
+            rep.violation('R19e', 'benefit-with-sold-shares-is-always-matched', where=nc.where(), fn=m.name,
+                          detail='a benefit can skip the trade matching for a reason other than "no shares were sold": its sale would keep unmatched dates and the trade '
+                                 'confirmation would be emitted again as a manual trade')
+        else:
+            rep.ok('R19e', 'benefit-with-sold-shares-is-always-matched', where=fc.where(), fn=m.name, detail='matching is skipped only when sell_to_cover_shares is None')
+        # R19f: the set returned by the finder comes from the share-count-filtered collection
+        fd = prog.resolve(fc.callee, m.crate)
+        cols = set()
+        for c in fd.calls:
+            if c.short == 'push' and re.search(r'Vec<std::vec::Vec<&', fd.ty.get(c.arg_local(0), '')):
+                ok_guard = False
+                for (sbb, discr, vals, neg) in fd.conditions_at(c.bb):
+                    d = mir.provenance(fd, discr, follow_all_call_args=True)
+                    tr = (vals != [0]) if vals is not None else (0 in (neg or []))
+                    if any(x.decl.endswith('PartialEq::eq') for x in d.calls) and d.has_call(r'Iterator::sum$') and tr and \
+                            (any(fl == 'sell_to_cover_shares' for of, fl in d.fields)):
+                        ok_guard = True
+                if ok_guard:
+                    r0 = mir.nearest_user_local(fd, c.args[0])
+                    if r0 is not None:
+                        cols.add(r0)
+        if not cols:
+            rep.violation('R19f', 'matching-sets-have-the-sold-share-count', fn=fd.name, where='%s:%d' % (fd.file, fd.line),
+                          detail='no collection of candidate sets is filled under "sum of shares == sold shares"')
+        else:
+            bad = []
+            n_ok = 0
+            for i, b in fd.blocks.items():
+                for s in b['stmts']:
+                    if s['dst']['l'] == 0 and s['r']['rv'] == 'agg' and s['r']['kind'].endswith('Result::Ok'):
+                        n_ok += 1
+                        o = mir.provenance(fd, s['r']['ops'][0], follow_all_call_args=True)
+                        if not (o.locals & cols) or (2 in o.params):
+                            bad.append(s)
+            if bad:
+                rep.violation('R19f', 'returned-set-comes-from-the-filtered-sets', where=fd.where(bad[0]), fn=fd.name,
+                              detail='a trade set is returned that does not come from the sets whose share counts add up to the sold shares (e.g. a single-candidate '
+                                     'shortcut): a sale of a different size would be swallowed by the benefit')
+            elif n_ok:
+                rep.ok('R19f', 'returned-set-comes-from-the-filtered-sets', fn=fd.name, detail='%d Ok return(s), all taken from the share-count-filtered collection' % n_ok)
+
     # ------------------------------------------------------------------ R19c
     errs = [l for l, t in m.ty.items() if l in m.user and re.search(r'^std::vec::Vec<std::string::String>$', t)]
     oks = [i for i, b in m.blocks.items() for s in b['stmts'] if s['dst']['l'] == 0 and s['r']['rv'] == 'agg' and s['r']['kind'].endswith('Result::Ok')]
